@@ -289,6 +289,37 @@ class CFG:
                 out.append((b, neg))
         return out
 
+    def implied_edges(self, node_id, value):
+        """edges on which the operand `node_id` of a NEGATED conjunction/disjunction is known to have `value`.  clang materialises
+        !(A && B): the short-circuit flows join at the block that tests the negation, so on its false edge every conjunct is true
+        (on the true edge of !(A || B) every disjunct is false).  [(block, succ index)]"""
+        out = []
+        for b in self.blocks:
+            c = self.cond_node(b)
+            if c is None or len(self.succs[b]) != 2:
+                continue
+            c = unwrap(c)
+            neg = False
+            while c is not None and c.get("k") == "unop" and c.get("op") == "!":
+                c = unwrap(c["sub"])
+                neg = not neg
+            if c is None or not neg or c.get("k") != "binop" or c.get("op") not in ("&&", "||"):
+                continue
+            op = c["op"]
+            ops, todo = [], [c]
+            while todo:
+                x = unwrap(todo.pop())
+                if x.get("k") == "binop" and x.get("op") == op:
+                    todo += [x["lhs"], x["rhs"]]
+                else:
+                    ops.append(x)
+            if any(o.get("id") == node_id for o in ops):
+                if op == "&&" and value is True:
+                    out.append((b, 1))
+                if op == "||" and value is False:
+                    out.append((b, 0))
+        return out
+
     def reachable_blocks(self, removed_edges=(), assume=None):
         """blocks reachable from entry when the given (block, succ index) edges are removed and edges contradicted by
         assume(cond node) -> True/False/None are pruned"""
@@ -324,12 +355,13 @@ class CFG:
         """True iff the target node is reachable only through the edge on which the condition node evaluates to `value`
         (i.e. unreachable once that edge is removed), and reachable at all.  None if the condition is no terminator."""
         cbs = self.cond_blocks(cond_node_id)
-        if not cbs or target_node_id not in self.where:
+        imp = self.implied_edges(cond_node_id, value)
+        if (not cbs and not imp) or target_node_id not in self.where:
             return None
         tb = self.where[target_node_id][0]
         if tb not in self.reachable_blocks(assume=assume):
             return False
-        removed = []
+        removed = list(imp)
         for b, neg in cbs:
             cond_val = (value != neg)
             removed.append((b, 0 if cond_val else 1))
